@@ -53,8 +53,11 @@ class PostgresImpl(SqlImpl):
                 )
 
             def int_type_range(dtype: Int) -> tuple[int, int]:
-                is_signed = dtype.__class__.__name__[0] == "I"
-                bits = int(dtype.__class__.__name__[4 - is_signed :])
+                dtype = types.without_const(dtype)
+                # the generic integer type is a 64 bit integer
+                name = "Int64" if type(dtype) is Int else dtype.__class__.__name__
+                is_signed = name[0] == "I"
+                bits = int(name[4 - is_signed :])
 
                 if is_signed:
                     return (-(2 ** (bits - 1)), 2 ** (bits - 1) - 1)
